@@ -391,7 +391,9 @@ def main():
         inthen = [x for x in c.ctx if x.startswith("then:")]
         okc = c.func == "main" and len(inthen) >= 1 and inthen[-1].startswith("then:netspoc ") and \
             not any(x.startswith("else:") for x in c.ctx[c.ctx.index(inthen[-1]):]) and c.andor in (None, "")
-        okc = okc and re.match(r"^then:netspoc \$PSRC \$PCODE$", inthen[-1] if inthen else "") is not None
+        # redirections on the compiler invocation (2>&1, >>log, N>&-) do not change what the condition tests
+        cond = re.sub(r"\s+\d*(?:>>?|<|>&|<&|&>)\s*\S+", "", inthen[-1] if inthen else "")
+        okc = okc and re.match(r"^then:netspoc \$PSRC \$PCODE$", cond) is not None
         add("R19.c", "call-in-success-branch", "bin/newpolicy.sh", "handle_success called in %s under %s" % (c.func, c.ctx), okc,
             "handle_success (the only writer of `current`) is reachable without a successful compile")
 
